@@ -54,4 +54,9 @@ def interp1dLinear (phi theta levels : List α) (maskEdges bypassChecks : Bool) 
       | _, _ => v
     else v)
 
+/-- `logarithmic=True` (method 'log'): `theta = np.log(theta); target_theta_levels = np.log(levels)`,
+    then the same kernel.  `L` stands for the logarithm; the data are not transformed. -/
+def interp1dLog (L : α → α) (phi theta levels : List α) (maskEdges bypassChecks : Bool) : List (Option α) :=
+  interp1dLinear phi (theta.map L) (levels.map L) maskEdges bypassChecks
+
 end Xgcm
